@@ -165,9 +165,15 @@ func generalReplyCheck(msgID uint16, serials []uint16, result byte) func(f *ref.
 	}
 }
 
+// convMostlyTransfers biases genRequest towards sub-packaged messages (set by the C05 socket part while it generates).
+var convMostlyTransfers bool
+
 func genRequest(t *rapid.T, id identity, serial *uint16, allowTransfer bool, label string) request {
 	next := func() uint16 { s := *serial; *serial++; return s }
 	kind := rapid.IntRange(0, 11).Draw(t, label+"_kind")
+	if convMostlyTransfers && allowTransfer && kind >= 4 {
+		kind = 2
+	}
 	switch {
 	case kind == 0: // response message: no reply
 		m := rapid.SampledFrom(responseIDs).Draw(t, label+"_resp")
@@ -185,7 +191,11 @@ func genRequest(t *rapid.T, id identity, serial *uint16, allowTransfer bool, lab
 		if m == 0x0800 {
 			full = append(full, rapid.SliceOfN(rapid.Byte(), 8, 8).Draw(t, label+"_pad")...)[:8]
 		}
-		n := rapid.IntRange(2, min(4, max(2, len(full)))).Draw(t, label+"_npk")
+		maxN := 4
+		if convMostlyTransfers {
+			maxN = 9
+		}
+		n := rapid.IntRange(1, min(maxN, max(2, len(full)))).Draw(t, label+"_npk") // 1: the fragment bit with "packet 1 of 1"
 		if len(full) < n {
 			n = len(full)
 		}
